@@ -228,6 +228,8 @@ func runC11(p *load.Program, r *oblig.Report) {
 	c17StaleSize(p, r, "C11.R8 drains start from an exact remaining size")
 	c.ruleR9("C11.R9 a response-level error code is reported to the caller")
 	c.ruleR10()
+	c.ruleR11()
+	c.ruleR12()
 }
 
 // ruleR1: broker errors raised mid-frame are followed by a drain.
@@ -1019,6 +1021,44 @@ func (c *c11ctx) ruleR9(rule string) {
 				}
 			}
 		})
+		// the response whose error code is examined is the one the read callback decodes into: a local response
+		// that no closure captures is never filled (a shadowed variable), its ErrorCode is always zero
+		var orphan []string
+		an.EachInstr(fn, func(ins ssa.Instruction) {
+			ld, ok := ins.(*ssa.UnOp)
+			if !ok || ld.Op != token.MUL || ld.Parent() != fn || codeLoads[ld] {
+				return
+			}
+			fa, ok := ld.X.(*ssa.FieldAddr)
+			if !ok || an.FieldName(fa.X.Type(), fa.Field) != "ErrorCode" {
+				return
+			}
+			al, local := fa.X.(*ssa.Alloc)
+			if !local {
+				return
+			}
+			// filled here at all? (a store into it or its address passed to a call in this function)
+			filled := false
+			for _, ref := range *al.Referrers() {
+				switch x := ref.(type) {
+				case *ssa.Store:
+					if x.Addr == ssa.Value(al) {
+						filled = true
+					}
+				case *ssa.Call:
+					filled = true
+				}
+			}
+			if !filled {
+				orphan = append(orphan, "the ErrorCode tested at "+p.Pos(ld.Pos())+" belongs to a response that nothing decodes into")
+			}
+		})
+		if len(orphan) > 0 {
+			n++
+			r.Bad(rule, an.ShortFunc(fn)+" → the ErrorCode of the response is examined whenever the round trip succeeded", p.Pos(op.Pos()),
+				"the response tested is the one captured by the read callback", strings.Join(orphan, "; "))
+			continue
+		}
 		if len(codeLoads) == 0 {
 			continue
 		}
@@ -1127,4 +1167,134 @@ func (c *c11ctx) ruleR10() {
 		}
 	}
 	r.RequireCount(rule, n, 2)
+}
+
+// ruleR11: the version table of a broker is cached on the Conn only when ApiVersions succeeded: a table cached from
+// a failed answer (empty or partial) would make every later negotiating operation fail locally for good, while a
+// fresh connection would simply ask again.
+func (c *c11ctx) ruleR11() {
+	const rule = "C11.R11 a failed ApiVersions leaves the connection as it was"
+	p, r := c.p, c.r
+	fn := p.Func("", "(*Conn).loadVersions")
+	if fn == nil {
+		r.Lost(rule, "kafka.(*Conn).loadVersions")
+		return
+	}
+	var av *ssa.Call
+	var store ssa.Instruction
+	an.EachInstr(fn, func(ins ssa.Instruction) {
+		call, ok := ins.(*ssa.Call)
+		if !ok {
+			return
+		}
+		if calleeNamed(&call.Call, "Conn", "ApiVersions") {
+			av = call
+		}
+		if sc := call.Call.StaticCallee(); sc != nil && an.ShortFunc(sc) == "(*sync/atomic.Value).Store" {
+			store = call
+		}
+	})
+	if av == nil || store == nil {
+		r.Lost(rule, "ApiVersions call / apiVersions.Store in kafka.(*Conn).loadVersions")
+		return
+	}
+	ok := false
+	for d, child := store.Block().Idom(), store.Block(); d != nil; d, child = d.Idom(), d {
+		_, ci := an.IfCond(d)
+		if e := ci.Edge(token.EQL); e >= 0 && an.IsNilConst(ci.Y) && edgeControls(d, e, child) {
+			if ex, isEx := an.Unwrap(ci.X).(*ssa.Extract); isEx && ex.Tuple == ssa.Value(av) && ex.Index == 1 {
+				ok = true
+			}
+		}
+	}
+	r.Check(ok, rule, "kafka.(*Conn).loadVersions caches the version table only on the err == nil edge of ApiVersions", p.Pos(store.Pos()), "if err != nil { return nil, err }; …; c.apiVersions.Store(v)", "the store is not dominated by the success edge")
+}
+
+// ruleR12: when the drain that follows a broker error fails itself, the stream is not at a frame boundary: that error
+// must replace the broker error (so that do() closes the connection). A drain error that is only tested, with a
+// branch that changes nothing the function returns, is lost.
+func (c *c11ctx) ruleR12() {
+	const rule = "C11.R12 a failed drain is reported instead of the broker error"
+	p, r := c.p, c.r
+	root := p.SSAPkg("")
+	n := 0
+	ord := map[*ssa.Function]int{}
+	for _, fn := range p.ModuleFunctions() {
+		top := fn
+		for top.Parent() != nil {
+			top = top.Parent()
+		}
+		if top.Pkg != root || top.Signature.Recv() == nil || !an.NamedIs(top.Signature.Recv().Type(), load.ModPath, "Conn") {
+			continue
+		}
+		an.EachInstr(fn, func(ins ssa.Instruction) {
+			call, ok := ins.(*ssa.Call)
+			if !ok || call.Parent() != fn || call.Call.StaticCallee() == nil || an.RefFuncName(call.Call.StaticCallee()) != "discardN" {
+				return
+			}
+			var errV ssa.Value
+			for _, ref := range *call.Referrers() {
+				if ex, isEx := ref.(*ssa.Extract); isEx && ex.Index == 1 {
+					errV = ex
+				}
+			}
+			n++
+			ord[top]++
+			name := fmt.Sprintf("%s → error of drain #%d", an.ShortFunc(top), ord[top])
+			if errV == nil {
+				r.Bad(rule, name, p.Pos(call.Pos()), "assigned to the error that is returned", "discarded")
+				return
+			}
+			seen := map[ssa.Value]bool{}
+			var reaches func(v ssa.Value) bool
+			reaches = func(v ssa.Value) bool {
+				if seen[v] || v.Referrers() == nil {
+					return false
+				}
+				seen[v] = true
+				for _, ref := range *v.Referrers() {
+					switch x := ref.(type) {
+					case *ssa.Return, *ssa.Store, *ssa.Send, *ssa.Panic:
+						return true
+					case *ssa.Phi:
+						if reaches(x) {
+							return true
+						}
+					case *ssa.MakeInterface:
+						if reaches(x) {
+							return true
+						}
+					case *ssa.ChangeInterface:
+						if reaches(x) {
+							return true
+						}
+					case *ssa.Call:
+						if sc := x.Call.StaticCallee(); sc != nil && load.InModule(sc) && sc.Signature.Results().Len() == 1 && isErrorType(sc.Signature.Results().At(0).Type()) {
+							if reaches(x) {
+								return true
+							}
+						}
+					}
+				}
+				return false
+			}
+			okR := reaches(errV)
+			// or: the failing edge closes the connection itself
+			if !okR {
+				for _, b := range an.Blocks(fn) {
+					_, ci := an.IfCond(b)
+					if e := ci.Edge(token.NEQ); e >= 0 && ci.X == errV && an.IsNilConst(ci.Y) {
+						if okC, _ := an.MustPass(fn, an.Point{B: b.Succs[e], Idx: -1}, func(i ssa.Instruction) bool {
+							c2, isC := i.(*ssa.Call)
+							return isC && isConnClose(&c2.Call)
+						}, nil); okC {
+							okR = true
+						}
+					}
+				}
+			}
+			r.Check(okR, rule, name, p.Pos(call.Pos()), "err = discardErr (it reaches what the operation returns), or the connection is closed", "the drain's error is tested but never leaves the function")
+		})
+	}
+	r.RequireCount(rule, n, 3)
 }
